@@ -28,3 +28,20 @@ claim("C18", "Coq theorems on the raw-buffer model of util.rs (all palette inser
       "extrude_border, PaletteMapper::lookup and to_indexed_image of the real crate (release and dev) with the formula and with the model.",
       "Modelled, not verified: image::RgbaImage as a raw row-major buffer; IntMap as a finite map with arbitrary iteration order.",
       "DESIGN.md section 5, C18")
+claim("C17", "Coq theorems about the blend wrapper for all 19 modes (finite sweeps only over byte-ranged helper domains) + law evaluation on rendered pixels",
+      "Theorems C17_alpha, C17_src_transparent, C17_zero_opacity, C17_over_transparent, C17_normal_opaque hold for every mode id, all byte pixels and "
+      "opacities with no float reasoning (proved once for the generic wrapper over any colour function preserving source alpha); C17_range_int / "
+      "C17_range_soft: no overflow check, debug assertion or division by zero and every channel in 0..255 for Normal, the 14 integer modes and soft light "
+      "(65536-point sweep on primitive floats); for the four HSL modes C17_range_hsl_only_failure shows the float-to-byte range check is the only possible "
+      "failure and C17_range_hsl_partial assumes it passes (goal_C17_range_hsl keeps the unconditional statement visible). The check re-proves them and "
+      "evaluates the laws on ~1.7 million rendered pixels per quick run in builds with overflow checks and debug assertions.",
+      "Partial: the HSL range statement carries the computable guard hsl_ok. Print Assumptions lists only primitive float/int63 operations. Modelled: Model/Blend.v against src/blend.rs (tied by the pixel correspondence run).",
+      "DESIGN.md section 5, C17")
+claim("C03", "Coq refinement proof Model/Blend.v = Spec/AseRef.v (transcribed Aseprite C++) + pixel-exact comparison through Frame::image",
+      "Theorems C03_int (Normal and the 14 integer modes: the model's blend equals the transcribed Aseprite function on packed colours for all byte pixels "
+      "and opacities), C03_soft (soft light, via a 65536-point sweep of the channel function on primitive floats), C03_hsl_preclip (unconditional: both "
+      "sides pass the same float triple to clip_color, including the r==g<b aliasing quirk of set_sat) and C03_hsl_partial (under the computable hsl_guard; "
+      "goal_C03_hsl keeps the full statement); the check re-proves them and renders two-layer sprites enumerating channel squares, alpha squares, tie/ordering "
+      "lattices and random pixels for every mode, comparing implementation = model = extracted AseRef on every pixel and recording hsl_guard on every HSL pixel.",
+      "Partial: HSL bit-exactness is proved up to hsl_guard (no float error analysis). Spec/AseRef.v is trusted as the meaning of Aseprite's blend functions (parts transcribed from memory of upstream blend_funcs.cpp, see DESIGN.md Appendix E). Print Assumptions lists only primitive float/int63 operations.",
+      "DESIGN.md section 5, C03")
